@@ -1,6 +1,7 @@
 package chainsim
 
 import (
+	"context"
 	"fmt"
 	"strings"
 
@@ -15,7 +16,7 @@ import (
 // against the chain's state when the operation runs (so that a shrunk plan stays
 // meaningful); the resolution is part of the run's event log.
 type Op struct {
-	Kind string `json:"k"` // insert | setcanon | sethead | setfinal | reopen | freeze | commit | snapcap
+	Kind string `json:"k"` // insert | payload | setcanon | sethead | setfinal | reopen | freeze | commit | snapcap
 	A    int    `json:"a,omitempty"`
 	B    int    `json:"b,omitempty"` // insert: mode (0 in order, 1 child before parent, 2 re-import known, 3 known prefix + new); length cap
 	C    int    `json:"c,omitempty"`
@@ -75,6 +76,7 @@ func (w *world) apply(op Op) (r resolved, v *simcore.Violation) {
 	headBefore := bc.CurrentBlock().Hash()
 	hdrBefore := bc.CurrentHeader().Hash()
 	headerAhead := bc.CurrentHeader().Number.Uint64() > bc.CurrentBlock().Number.Uint64()
+	headNumBefore := bc.CurrentBlock().Number.Uint64()
 	rebase := false
 	preKnown := map[int]bool{} // insert: blocks of the segment that were stored before the call
 	preState := map[int]bool{} // ... and had their state available
@@ -195,6 +197,80 @@ func (w *world) apply(op Op) (r resolved, v *simcore.Violation) {
 				}
 			}
 		}
+	case "payload":
+		// engine-API style: blocks are executed and stored without touching the head
+		// (InsertBlockWithoutSetHead); a later SetCanonical switches to them in one reorg
+		target := t.nodes[op.A%len(t.nodes)]
+		path := t.path(target.idx)
+		first := len(path)
+		for i, n := range path {
+			if !w.known(n) {
+				first = i
+				break
+			}
+		}
+		if first == len(path) {
+			r.skipped = true
+			note("payload node %d: already stored", target.idx)
+			break
+		}
+		seg := path[first:]
+		if !bc.HasState(t.blockOf(seg[0].parent).Root()) {
+			// engine_newPayload only executes a payload whose parent state is available
+			// (otherwise the payload is stashed): eth/catalyst delayPayloadImport
+			r.skipped = true
+			note("payload node %d: parent state not available", target.idx)
+			break
+		}
+		if op.C%3 == 1 && len(seg) > 1 {
+			seg = seg[:1+op.C%len(seg)]
+		}
+		if w.knobs.Scheme == rawdb.PathScheme {
+			// a side fork that grows maxDiffLayers beyond its fork point flattens the head's own
+			// layers away while the head does not move (the consensus layer never runs 128
+			// payloads ahead of its fork choice): keep the fork shorter than that
+			limit := 126
+			if w.knobs.MaxDiff > 0 {
+				limit = w.knobs.MaxDiff - 2
+			}
+			ca := uint64(0)
+			for i := t.nodeOf(headBefore); i >= 0; i = t.nodes[i].parent {
+				if t.isAncestorOrSelf(i, seg[0].idx) {
+					ca = t.nodes[i].depth
+					break
+				}
+			}
+			for len(seg) > 0 && int(seg[len(seg)-1].depth-ca) > limit {
+				seg = seg[:len(seg)-1]
+			}
+			if len(seg) == 0 {
+				r.skipped = true
+				note("payload node %d: fork would outgrow maxDiffLayers", target.idx)
+				break
+			}
+		}
+		for _, n := range seg {
+			r.blocks = append(r.blocks, n.idx)
+		}
+		note("payload nodes %v (#%d..#%d)", r.blocks, seg[0].depth, seg[len(seg)-1].depth)
+		for _, n := range seg {
+			var err error
+			if v = guard("InsertBlockWithoutSetHead", func() *simcore.Violation {
+				_, err = bc.InsertBlockWithoutSetHead(context.Background(), n.block, false)
+				return nil
+			}); v != nil {
+				return r, v
+			}
+			if err != nil {
+				r.desc += fmt.Sprintf(" -> #%d %s", n.depth, errClass(err))
+				w.res.Probe("payload-error")
+				break
+			}
+		}
+		if cur := bc.CurrentBlock(); cur.Hash() != headBefore {
+			return r, viol("payload-moved-head", "InsertBlockWithoutSetHead changed CurrentBlock to #%d %x", cur.Number, cur.Hash().Bytes()[:4])
+		}
+		w.res.Probe("payload-stored-without-head")
 	case "setcanon":
 		var cands []int
 		for _, n := range t.nodes {
@@ -401,6 +477,14 @@ func (w *world) apply(op Op) (r resolved, v *simcore.Violation) {
 			// every unannounced log belongs to a block that was stored with its state before the
 			// call (writeKnownBlock path)
 			v.Key = "logs-never-announced:known-block-made-head-again"
+		case (v.Oracle == "txlookup-wrong" || v.Oracle == "txlookup-noncanonical") && w.staleCacheHash != (common.Hash{}) && headerAhead &&
+			t.isAncestorOrSelf(t.nodeOf(headBefore), t.nodeOf(w.bc.CurrentBlock().Hash())) &&
+			w.staleCacheNum > headNumBefore && int(w.staleCacheNum) < len(canonBefore) && canonBefore[w.staleCacheNum] == w.staleCacheHash:
+			// only the cache is wrong; before the operation the block head was below the header
+			// head, the cached block sat in that header-only range of the canonical index, and the
+			// new head descends from the old block head, i.e. every block was written on top of
+			// the current block and reorg() (which purges the cache) never ran
+			v.Key = "txlookup-wrong:stale-lookup-cache"
 		case v.Oracle == "added-log-twice" && w.dupLogBlock != -2 && t.isAncestorOrSelf(w.dupLogBlock, t.nodeOf(headBefore)):
 			// the re-announced block was canonical before the operation and still is
 			v.Key = "added-log-twice:already-canonical-block-made-head-again"
